@@ -4,6 +4,7 @@
 #include "field.h"
 #include "method.h"
 #include "core_parser.h"
+#include "verif_core_hooks.h"
 #ifdef BUILD_LISTENERS
 #include "core_listener.h"
 #endif
@@ -17,6 +18,17 @@ using namespace smt;
 
 namespace ratio
 {
+#ifdef ORATIO_VERIF
+    namespace verif
+    {
+        CORE_EXPORT core_tracer *&current_core() noexcept
+        {
+            static core_tracer *tr = nullptr;
+            return tr;
+        }
+    } // namespace verif
+#endif
+
     CORE_EXPORT core::core() : scope(*this), env(*this, context(this)), sat_cr(), lra_th(sat_cr), ov_th(sat_cr), idl_th(sat_cr), rdl_th(sat_cr) { new_types({new bool_type(*this), new int_type(*this), new real_type(*this), new tp_type(*this), new string_type(*this)}); }
     CORE_EXPORT core::~core()
     {
@@ -250,6 +262,7 @@ namespace ratio
 
     CORE_EXPORT bool_expr core::conj(const std::vector<bool_expr> &xprs) noexcept
     {
+        ORATIO_VERIF_CORE_WRAP(conj(xprs), op(*this, "conj", std::vector<expr>(xprs.cbegin(), xprs.cend()), vr_));
         std::vector<lit> lits;
         for (const auto &bex : xprs)
             lits.push_back(bex->l);
@@ -258,6 +271,7 @@ namespace ratio
 
     CORE_EXPORT bool_expr core::disj(const std::vector<bool_expr> &xprs) noexcept
     {
+        ORATIO_VERIF_CORE_WRAP(disj(xprs), op(*this, "disj", std::vector<expr>(xprs.cbegin(), xprs.cend()), vr_));
         std::vector<lit> lits;
         for (const auto &bex : xprs)
             lits.push_back(bex->l);
@@ -266,6 +280,7 @@ namespace ratio
 
     CORE_EXPORT bool_expr core::exct_one(const std::vector<bool_expr> &xprs) noexcept
     {
+        ORATIO_VERIF_CORE_WRAP(exct_one(xprs), op(*this, "exct_one", std::vector<expr>(xprs.cbegin(), xprs.cend()), vr_));
         std::vector<lit> lits;
         for (const auto &bex : xprs)
             lits.push_back(bex->l);
@@ -274,6 +289,7 @@ namespace ratio
 
     CORE_EXPORT arith_expr core::add(const std::vector<arith_expr> &xprs) noexcept
     {
+        ORATIO_VERIF_CORE_WRAP(add(xprs), op(*this, "add", std::vector<expr>(xprs.cbegin(), xprs.cend()), vr_));
         assert(xprs.size() > 1);
         lin l;
         for (const auto &aex : xprs)
@@ -283,6 +299,7 @@ namespace ratio
 
     CORE_EXPORT arith_expr core::sub(const std::vector<arith_expr> &xprs) noexcept
     {
+        ORATIO_VERIF_CORE_WRAP(sub(xprs), op(*this, "sub", std::vector<expr>(xprs.cbegin(), xprs.cend()), vr_));
         assert(xprs.size() > 1);
         lin l;
         for (auto it = xprs.cbegin(); it != xprs.cend(); ++it)
@@ -295,6 +312,7 @@ namespace ratio
 
     CORE_EXPORT arith_expr core::mult(const std::vector<arith_expr> &xprs) noexcept
     {
+        ORATIO_VERIF_CORE_WRAP(mult(xprs), op(*this, "mult", std::vector<expr>(xprs.cbegin(), xprs.cend()), vr_));
         assert(xprs.size() > 1);
         if (auto var_it = std::find_if(xprs.cbegin(), xprs.cend(), [this](const auto &ae)
                                        { return lra_th.lb(ae->l) != lra_th.ub(ae->l); });
@@ -325,6 +343,7 @@ namespace ratio
 
     CORE_EXPORT arith_expr core::div(const std::vector<arith_expr> &xprs) noexcept
     {
+        ORATIO_VERIF_CORE_WRAP(div(xprs), op(*this, "div", std::vector<expr>(xprs.cbegin(), xprs.cend()), vr_));
         assert(xprs.size() > 1);
         assert(std::all_of(++xprs.cbegin(), xprs.cend(), [this](const auto &ae)
                            { return lra_th.lb(ae->l) == lra_th.ub(ae->l); }) &&
@@ -343,6 +362,7 @@ namespace ratio
 
     CORE_EXPORT bool_expr core::lt(arith_expr left, arith_expr right) noexcept
     {
+        ORATIO_VERIF_CORE_WRAP(lt(left, right), op(*this, "lt", {left, right}, vr_));
         if (get_type({left, right}).get_name() == TP_KEYWORD)
             return new bool_item(*this, rdl_th.new_lt(left->l, right->l));
         else
@@ -350,6 +370,7 @@ namespace ratio
     }
     CORE_EXPORT bool_expr core::leq(arith_expr left, arith_expr right) noexcept
     {
+        ORATIO_VERIF_CORE_WRAP(leq(left, right), op(*this, "leq", {left, right}, vr_));
         if (get_type({left, right}).get_name() == TP_KEYWORD)
             return new bool_item(*this, rdl_th.new_leq(left->l, right->l));
         else
@@ -357,6 +378,7 @@ namespace ratio
     }
     CORE_EXPORT bool_expr core::eq(arith_expr left, arith_expr right) noexcept
     {
+        ORATIO_VERIF_CORE_WRAP(eq(left, right), op(*this, "eq", {left, right}, vr_));
         if (get_type({left, right}).get_name() == TP_KEYWORD)
             return new bool_item(*this, rdl_th.new_eq(left->l, right->l));
         else
@@ -364,6 +386,7 @@ namespace ratio
     }
     CORE_EXPORT bool_expr core::geq(arith_expr left, arith_expr right) noexcept
     {
+        ORATIO_VERIF_CORE_WRAP(geq(left, right), op(*this, "geq", {left, right}, vr_));
         if (get_type({left, right}).get_name() == TP_KEYWORD)
             return new bool_item(*this, rdl_th.new_geq(left->l, right->l));
         else
@@ -371,6 +394,7 @@ namespace ratio
     }
     CORE_EXPORT bool_expr core::gt(arith_expr left, arith_expr right) noexcept
     {
+        ORATIO_VERIF_CORE_WRAP(gt(left, right), op(*this, "gt", {left, right}, vr_));
         if (get_type({left, right}).get_name() == TP_KEYWORD)
             return new bool_item(*this, rdl_th.new_gt(left->l, right->l));
         else
@@ -381,6 +405,10 @@ namespace ratio
 
     CORE_EXPORT void core::assert_facts(const std::vector<lit> &facts)
     {
+#ifdef ORATIO_VERIF
+        for (const auto &f : facts)
+            ORATIO_VERIF_CORE_HOOK(asserted(*this, ni, f));
+#endif
         for (const auto &f : facts)
             if (!sat_cr.new_clause({!ni, f}))
                 throw unsolvable_exception();
@@ -388,6 +416,10 @@ namespace ratio
 
     CORE_EXPORT void core::assert_facts(const std::vector<bool_expr> &facts)
     {
+#ifdef ORATIO_VERIF
+        for (const auto &f : facts)
+            ORATIO_VERIF_CORE_HOOK(asserted(*this, ni, f->l));
+#endif
         for (const auto &f : facts)
             if (!sat_cr.new_clause({!ni, f->l}))
                 throw unsolvable_exception();
